@@ -6,6 +6,9 @@ use crate::macsuites::*;
 use crate::util::*;
 
 pub fn eval(op: &str) -> String {
+    if let Some(r) = crate::adevgen::eval_dev_any(op) {
+        return r;
+    }
     let outs = run_history(op);
     format!("{} ## oracle={}", outs.join(" ; "), oracle_c12(op, &outs))
 }
@@ -19,6 +22,21 @@ pub fn run(tier: &str, seed: u64, dir: &str) {
     let mut sink = Sink::new(dir);
     let thorough = tier == "thorough";
     for region in REGIONS {
+        // corpus: every order of (confirmed?, confirmed?, confirmed?) over RX1 / RXC / RXC before the next uplinks
+        for bits in 0..8u32 {
+            let mut h = Hist::new("C12", region, 20, 0, bits as u64 + 1, &[], None);
+            h.go_live();
+            h.abp();
+            h.send(1, false, &[7]);
+            h.rx_auth("rx1", 0, 1, bits & 1 != 0, &[], None, &[]);
+            h.rx_auth("rxc", 0, 1, bits & 2 != 0, &[], Some(3), &[2]);
+            h.rx_auth("rxc", 0, 1, bits & 4 != 0, &[], None, &[]);
+            h.send(1, false, &[8]).timeout();
+            h.send(1, false, &[9]).timeout();
+            h.snap();
+            let op = h.done();
+            sink.case(&op, &eval(&op), "ack-after-several-downlinks", true);
+        }
         let n = if thorough { 500 } else { 30 };
         for i in 0..n {
             let drs = uplink_drs(region);
@@ -58,10 +76,14 @@ pub fn run(tier: &str, seed: u64, dir: &str) {
                             h.last_down = Some(f);
                         }
                     }
-                    2 => {
-                        // several confirmed downlinks before the next uplink: one ACK
-                        h.rx_auth("rx1", 0, 1, true, &[], None, &[]);
-                        h.rx_auth("rxc", 0, 1, true, &[], Some(3), &[2]);
+                    2 | 3 => {
+                        // several accepted downlinks before the next uplink, confirmed and
+                        // unconfirmed in every order (Class A window, then Class C receptions):
+                        // the next uplink acknowledges iff one of them was confirmed
+                        h.rx_auth("rx1", 0, 1, rng.chance(1, 2), &[], None, &[]);
+                        for _ in 0..1 + rng.below(3) {
+                            h.rx_auth("rxc", 0, 1, rng.chance(1, 2), &[], Some(3), &[2]);
+                        }
                     }
                     _ => {
                         h.timeout();
@@ -73,5 +95,7 @@ pub fn run(tier: &str, seed: u64, dir: &str) {
             sink.case(&op, &eval(&op), if uplinks > 200 { "long-history" } else { "history" }, true);
         }
     }
+    // device level: both front-ends with the scripted radio (see adevgen::add_dev_classes)
+    crate::adevgen::add_dev_classes("C12", &mut rng, &mut sink, thorough, eval);
     sink.finish(dir, "per region: histories of 20..400 uplinks with rare accepted (confirmed/unconfirmed) and rejected downlinks, ADR toggles and application data-rate overrides, sessions restored with ADR counters at 0/60/63/64/95/96/127/200; every uplink header and data rate is compared with a 5-field reference automaton (ack owed, ADR on, uplinks since last accepted downlink, data rate, address). Non-trivial = every case.", false, serde_json::json!({}));
 }
